@@ -16,7 +16,8 @@ focus=None  : the operations C02 names (add-or-replace, get, contains, remove, r
 "growth"    : insert-dominated from tiny capacities;   "fault": ops that allocate (no fail=);
 "all"       : everything mixed.
 Contract respected by construction: it_next/it_remove only on an iterator created after the last
-mutation (the shims also refuse anything else with `noiter`), at most one it_remove per yield.
+mutation (the shims also refuse anything else with `noiter`).  it_remove before the first it_next and a
+repeated it_remove are legal calls (KEY_NOT_FOUND, inert) and are generated.
 """
 import itertools
 
@@ -123,6 +124,11 @@ class HashTableGen:
                             ops.append("it_remove")
                     ops += ["it_next", "it_next"] + self._tail(4) + ["destroy"]
                     out.append(ops)
+                # it_remove before the first next, repeated it_remove, it_remove after END
+                ops = [f"new cap={cap} lf=1 hash={h}"] + [self._add(k, 20 + k) for k in (1, 2, 0)]
+                ops += ["it_new", "it_remove", "it_next", "it_remove", "it_remove", "it_next", "it_next", "it_next",
+                        "it_remove", "it_remove", "it_next"] + self._tail(3) + ["destroy"]
+                out.append(ops)
         out.append(["new_default", self._add(1, 2), self._add(0, 3), self._add(1, 4), "remove 1", "remove 1", "destroy"])
         return out
 
@@ -237,10 +243,14 @@ class HashTableGen:
                 full = rng.random() < 0.7
                 steps = pending + rng.choice([1, 1, 2]) if full else rng.randint(0, pending)
                 p_remove = rng.choice([0.0, 0.2, 0.5, 1.0])
+                if rng.random() < 0.15:
+                    ops.append("it_remove")          # before the first next: KEY_NOT_FOUND, inert
                 for _ in range(steps):
                     ops.append("it_next" + (" noout=1" if self.is_set and rng.random() < 0.1 else ""))
                     if rng.random() < p_remove:
                         ops.append("it_remove" + (" noout=1" if rng.random() < 0.2 else ""))
+                        if rng.random() < 0.15:
+                            ops.append("it_remove")  # repeated: KEY_NOT_FOUND, inert
             elif kind == "dtab":
                 if slots and rng.random() < 0.5:
                     ops.append("destroy_table")
